@@ -137,6 +137,22 @@ def _leaves(stmts) -> bool:
     return False
 
 
+def _const_truth(e):
+    if isinstance(e, ast.Constant) and isinstance(e.value, bool):
+        return e.value
+    if isinstance(e, ast.Compare) and len(e.ops) == 1 and isinstance(e.left, ast.Constant) and isinstance(e.comparators[0], ast.Constant):
+        a, b = e.left.value, e.comparators[0].value
+        if isinstance(e.ops[0], ast.Is):
+            return a is b if (a is None or b is None or isinstance(a, bool) or isinstance(b, bool)) else None
+        if isinstance(e.ops[0], ast.IsNot):
+            return a is not b if (a is None or b is None or isinstance(a, bool) or isinstance(b, bool)) else None
+        if isinstance(e.ops[0], ast.Eq):
+            return a == b
+        if isinstance(e.ops[0], ast.NotEq):
+            return a != b
+    return None
+
+
 def _bool_flag(s: ast.If):
     """if c: x = True else: x = False   ->   x = c   (c boolean valued; otherwise bool(c)); the mirrored form gives x = not c"""
     if len(s.body) == 1 and len(s.orelse) == 1 and isinstance(s.body[0], ast.Assign) and isinstance(s.orelse[0], ast.Assign):
@@ -171,6 +187,12 @@ def _norm_block(stmts: List[ast.stmt]) -> List[ast.stmt]:
         s = stmts[i]
         if isinstance(s, ast.If):
             s.test = nnf(s.test)
+            cv = _const_truth(s.test)
+            if cv is not None:
+                # a test between constants (e.g. a default `None is not None` after a helper was inlined) selects its branch statically
+                chosen = _norm_block(s.body if cv else s.orelse)
+                stmts = stmts[:i] + chosen + stmts[i + 1:]
+                continue
             s.body = _norm_block(s.body)
             s.orelse = _norm_block(s.orelse)
             rest = stmts[i + 1:]
